@@ -79,3 +79,70 @@ func runMatchRowsAs(c *Check, asCall bool) {
 			Got:      fmt.Sprintf("%d rows agree only with %q", len(followed[minority]), minority)})
 	}
 }
+
+// reCaseTracker: rows of the family "recase" (a regexp case and a value which is not a string) carry the runs
+// under two definitions; the implementation must follow one of them everywhere and may not abort the run
+type reCaseTracker struct {
+	mu       sync.Mutex
+	followed map[string][]string
+}
+
+func (t *reCaseTracker) replay(c *Check, row *Row) {
+	var extra struct {
+		RunsNone []RunStep `json:"runsnone"`
+	}
+	if json.Unmarshal(row.Raw, &extra) != nil || len(extra.RunsNone) != len(row.Runs) {
+		c.fail("recase row does not parse")
+		return
+	}
+	src := rowSource(row)
+	fns := parseFns(row.Fns)
+	c.count("recase|"+src, true)
+	for _, opt := range []bool{true, false} {
+		mode := map[bool]string{true: "opt", false: "noopt"}[opt]
+		m, err := newMachine(src, nil, fns, opt, nil)
+		if err != nil {
+			c.disagree(&Disagreement{Kind: "prepare-failed", Script: src, Mode: mode, Expected: "accepted", Got: err.Error(), Row: row.Raw})
+			return
+		}
+		for i := range row.Runs {
+			obj, _ := objFromPairs(row.Runs[i].Obj)
+			o := m.exec(obj)
+			agrees := func(e *Expect) bool {
+				if k, _, _ := compareOut(mustVal(e.Out), o); k != "" {
+					return false
+				}
+				return describeCalls(expectedCalls(e.Calls)) == describeCalls(o.Calls)
+			}
+			a, b := agrees(row.Runs[i].Exp), agrees(extra.RunsNone[i].Exp)
+			where := fmt.Sprintf("object %s", string(row.Runs[i].Obj))
+			switch {
+			case !a && !b:
+				c.disagree(&Disagreement{Kind: "value", Script: src, Mode: mode, Expected: mustVal(row.Runs[i].Exp.Out).String() + " with calls " + describeCalls(expectedCalls(row.Runs[i].Exp.Calls)) + " (a regexp case tests the printed form of the value) or " + mustVal(extra.RunsNone[i].Exp.Out).String() + " with calls " + describeCalls(expectedCalls(extra.RunsNone[i].Exp.Calls)) + " (no regexp case matches a value which is not a string)", Got: o.describe() + " with calls " + describeCalls(o.Calls), Row: row.Raw, Detail: map[string]interface{}{"where": where}})
+			case a && !b:
+				t.note("print", src+" on "+where)
+			case b && !a:
+				t.note("none", src+" on "+where)
+			}
+		}
+	}
+}
+
+func (t *reCaseTracker) note(def, what string) {
+	t.mu.Lock()
+	defer t.mu.Unlock()
+	if t.followed == nil {
+		t.followed = map[string][]string{}
+	}
+	t.followed[def] = append(t.followed[def], what)
+}
+
+func (t *reCaseTracker) finish(c *Check) {
+	c.extra["recase_rows_print_only"] = len(t.followed["print"])
+	c.extra["recase_rows_none_only"] = len(t.followed["none"])
+	if len(t.followed["print"]) > 0 && len(t.followed["none"]) > 0 {
+		c.disagree(&Disagreement{Kind: "two-definitions", Script: t.followed["none"][0],
+			Expected: fmt.Sprintf("one definition of a regexp case on a value which is not a string (%d informative runs agree only with \"the printed form is tested\", e.g. %s)", len(t.followed["print"]), t.followed["print"][0]),
+			Got:      fmt.Sprintf("%d runs agree only with \"no regexp case matches\"", len(t.followed["none"]))})
+	}
+}
